@@ -58,6 +58,7 @@ pub struct Fail {
 }
 
 pub fn execute(robot: &Arc<KinematicsWithShape>, case: &Case, keep_events: bool) -> SimOut<Obs> {
+    report::progress_case(|| json!({"check": "C13", "case": case}));
     let robot = robot.clone();
     let (start, goal, step, max_try, cancel) = (case.start, case.goal, case.step, case.max_try, case.cancel);
     let warm_up = case.warm_up;
@@ -683,6 +684,7 @@ pub fn run(tier_name: &str, seed: u64) -> i32 {
         let mut tally = Tally::default();
         let mut enumerated = 0;
         for run in 0..t.per_shard {
+            report::progress(shard, run);
             let Some(base) = gen_case(seed, shard as u64, run as u64, &t) else {
                 tally.bump("scenarios_without_free_start_goal", 1);
                 continue;
